@@ -109,6 +109,11 @@ def schema_for(value):
     return {"type": "object", "properties": {k: schema_for(v) for k, v in value.items()}, "required": list(value), "additionalProperties": False}
 
 
+# literal first segments of the path template: a colon (custom methods such as `/items:search`) looks like a URL scheme to a
+# naive join, dots and tildes are unreserved, `;` and `=` are sub-delimiters
+PREFIXES = ["/t", "/t", "/items:search", "/v1.2", "/a~b", "/x;y=1", "/m:n:o"]
+
+
 @st.composite
 def wire_case(draw):
     tier = draw(st.sampled_from(["A", "A", "B", "B", "C"]))
@@ -139,11 +144,13 @@ def wire_case(draw):
         if draw(st.integers(0, 3)) == 0:
             fields["flag"] = draw(st.booleans())
         body = {"media_type": "multipart/form-data", "value": fields}
-    return {"tier": tier, "params": params, "body": body, "body_required": draw(st.sampled_from([True, True, False])), "base": draw(st.sampled_from(["", "/api", "/api/"])), "method": draw(st.sampled_from(["post", "put", "patch"]))}
+    return {"tier": tier, "params": params, "body": body, "body_required": draw(st.sampled_from([True, True, False])), "base": draw(st.sampled_from(["", "/api", "/api/"])), "method": draw(st.sampled_from(["post", "put", "patch"])), "prefix": draw(st.sampled_from(PREFIXES)),
+            # a header / cookie whose schema has no top-level `type` but admits strings: whatever is generated must be sendable
+            "free": draw(st.sampled_from([None, None, None, ["header", "anyOf"], ["header", "untyped"], ["cookie", "anyOf"], ["header", "type-list"]]))}
 
 
 def build_doc(inp) -> tuple[dict, str]:
-    path = "/t" + "".join("/{%s}" % p["name"] for p in inp["params"] if p["in"] == "path") + "/end"
+    path = inp.get("prefix", "/t") + "".join("/{%s}" % p["name"] for p in inp["params"] if p["in"] == "path") + "/end"
     plist = []
     for p in inp["params"]:
         d = {"name": p["name"], "in": p["in"], "required": True}
@@ -154,6 +161,9 @@ def build_doc(inp) -> tuple[dict, str]:
         plist.append(d)
     # an optional free parameter: it makes the boundary generator produce several cases around one template of pinned values
     plist.append({"name": "aux", "in": "query", "required": False, "schema": {"type": "integer", "minimum": 1, "maximum": 5}})
+    if inp.get("free") and not any(p["in"] == inp["free"][0] for p in inp["params"]):
+        schema = {"anyOf": {"anyOf": [{"type": "string", "maxLength": 4}, {"type": "integer"}]}, "untyped": {"maxLength": 3}, "type-list": {"type": ["string", "integer"], "maxLength": 4}}[inp["free"][1]]
+        plist.append({"name": "X-Free", "in": inp["free"][0], "required": True, "schema": schema})
     op = {"parameters": plist, "responses": {"200": {"description": "ok"}}}
     if inp["body"]:
         b = inp["body"]
@@ -408,7 +418,7 @@ def check_wire(ctx: Ctx, inp) -> None:
         u = urlsplit(req.target)
         # (1) path
         base = inp["base"].rstrip("/")
-        template = re.escape(base) + "/t" + "".join("/([^/]*)" for p in inp["params"] if p["in"] == "path") + "/end"
+        template = re.escape(base) + re.escape(inp.get("prefix", "/t")) + "".join("/([^/]*)" for p in inp["params"] if p["in"] == "path") + "/end"
         m = re.fullmatch(template, u.path)
         path_params = [p for p in inp["params"] if p["in"] == "path"]
         if not m or remove_dot_segments(u.path) != u.path:
@@ -461,15 +471,15 @@ def check_wire(ctx: Ctx, inp) -> None:
             if not ok:
                 ctx.disagree(f"wire:body-does-not-round-trip:{media}", f"body bytes {req.body[:200]!r} vs case body {case.body!r}", input=inp, request=req.as_json())
         # (4) only standard headers + the case's
-        declared = {p["name"].lower() for p in inp["params"] if p["in"] == "header"}
+        declared = {p["name"].lower() for p in inp["params"] if p["in"] == "header"} | {"x-free"}
         extra = sorted({k.lower() for k, _ in req.headers} - STANDARD_HEADERS - declared)
         if extra:
             ctx.disagree("wire:unexpected-header-added", f"headers {extra} are neither standard client headers nor part of the case", input=inp, request=req.as_json())
-        if req.header("Cookie") is not None and not any(p["in"] == "cookie" for p in inp["params"]):
+        if req.header("Cookie") is not None and not any(p["in"] == "cookie" for p in inp["params"]) and not (inp.get("free") and inp["free"][0] == "cookie"):
             ctx.disagree("wire:unexpected-header-added", f"a Cookie header was sent although the case has no cookies: {req.header('Cookie')!r}", input=inp, request=req.as_json())
         elif req.header("Cookie") is not None:
             sent_names = {x.split("=", 1)[0] for x in req.header("Cookie").split("; ") if "=" in x}
-            foreign = sorted(sent_names - {p["name"] for p in inp["params"] if p["in"] == "cookie"})
+            foreign = sorted(sent_names - {p["name"] for p in inp["params"] if p["in"] == "cookie"} - {"X-Free"})
             if foreign:
                 ctx.disagree("wire:unexpected-cookie-added", f"cookies {foreign} are not part of the case: {req.header('Cookie')!r}", input=inp, request=req.as_json())
 
@@ -583,7 +593,7 @@ def swagger_type(value):
 
 
 def build_swagger_doc(inp):
-    path = "/t" + "".join("/{%s}" % p["name"] for p in inp["params"] if p["in"] == "path") + "/end"
+    path = inp.get("prefix", "/t") + "".join("/{%s}" % p["name"] for p in inp["params"] if p["in"] == "path") + "/end"
     plist = []
     for p in inp["params"]:
         d = {"name": p["name"], "in": p["in"], "required": True}
@@ -743,6 +753,8 @@ def transport_case(draw):
     inp = draw(wire_case())
     inp["transport"] = draw(st.sampled_from(["wsgi", "asgi"]))
     return inp
+
+
 
 
 SUBS = [
